@@ -542,4 +542,73 @@ Section Literal.
 
   Theorem literal_pass_sound fuel n n' : run_to_fixpoint form_literal_bytes fuel n = Ok n' -> PRel false n n'.
   Proof. apply pass_sound. exact literal_sound. Qed.
+
+  (* ---- \q string sets: every alternative is lowered to pieces (src/literal.rs), each piece a leaf that starts and
+     ends at well-formed positions ---- *)
+  Definition piece_leaf (n : node) : Prop :=
+    match n with NChar _ | NByteSequence _ | NByteSet _ | NCharSet _ => True | _ => False end.
+
+  (* a leaf of these kinds run as a piece *)
+  Lemma piece_run_clo n fwd code q q' : piece_leaf n -> al n -> leaf_code (negb fwd) n = Some code -> okp q ->
+    run code fwd q = Some (Some q') -> okp q'.
+  Proof.
+    intros Hp Ha El Hq Er.
+    assert (Hx : OptMono.oks okp (q, [])) by (split; [exact Hq|constructor]).
+    destruct n; try contradiction; destruct Ha as [Hc _];
+      (assert (E : IR 1 _ fwd (q, []) = Some [(q', [])])
+         by (cbn [ir_results]; rewrite El; unfold results_of; cbn [fst snd]; rewrite Er; reflexivity);
+       specialize (Hc 1%nat fwd (q, []) _ Hx E); inversion Hc as [|? ? [H1 _] _]; subst; exact H1).
+  Qed.
+
+  Lemma pieces_run_clo fwd : forall l q q', Forall (fun n => piece_leaf n /\ al n) l -> okp q ->
+    pieces_run ix unicode h (negb fwd) l fwd q = Some (Some q') -> okp q'.
+  Proof.
+    induction l as [|n l IH]; intros q q' HF Hq E; cbn [pieces_run] in E; [inversion E; subst; exact Hq|].
+    inversion HF as [|? ? [Hp Ha] Hl]; subst.
+    destruct (leaf_code (negb fwd) n) as [code|] eqn:El; [|discriminate].
+    destruct (run code fwd q) as [[q1|]|] eqn:Er; try discriminate.
+    eapply IH; [exact Hl| |exact E]. eapply piece_run_clo; eauto.
+  Qed.
+
+  Lemma al_enc c : is_scalar c = true -> al (NByteSequence (utf8_encode c)).
+  Proof. intros Hs. apply al_byteseq. intros fwd q e Hq E. eapply Henc2; eauto. Qed.
+
+  Definition piece_ok (p : piece) : Prop := piece_leaf (node_of_piece p) /\ al (node_of_piece p).
+
+  Lemma lower_go_ok icase : forall cps_ acc pieces, Forall piece_ok acc ->
+    lower_go cps_ icase unicode acc = Some pieces -> Forall piece_ok pieces.
+  Proof.
+    induction cps_ as [|cp t IH]; intros acc pieces Hacc E; cbn [lower_go] in E.
+    - inversion E; subst. apply Forall_rev. exact Hacc.
+    - destruct (expand_code_point cp icase unicode) as [|c [|c2 rest]] eqn:Ex; [discriminate| |].
+      + destruct (is_scalar c) eqn:Es.
+        * destruct acc as [|[pc|prev|pb|pcs] acc'];
+            try (eapply IH; [|exact E]; constructor; [split; [exact I|apply al_enc; exact Es]|exact Hacc]).
+          eapply IH; [|exact E]. inversion Hacc as [|? ? [_ Hprev] Hacc']; subst. constructor; [|exact Hacc'].
+          split; [exact I|]. cbn [node_of_piece] in *. exact (al_merged false prev (utf8_encode c) Hprev (al_enc c Es)).
+        * eapply IH; [|exact E]. constructor; [split; [exact I|apply al_char; exact Hk1]|exact Hacc].
+      + destruct (4 <? length (c :: c2 :: rest))%nat eqn:El; [discriminate|]. apply Nat.ltb_ge in El.
+        destruct (forallb (fun c0 => c0 <=? 127) (c :: c2 :: rest)) eqn:Ea.
+        * eapply IH; [|exact E]. constructor; [split; [exact I|apply al_byteset; assumption]|exact Hacc].
+        * eapply IH; [|exact E]. constructor; [split; [exact I|apply al_charset_any; exact Hk1]|exact Hacc].
+  Qed.
+
+  Theorem al_stringset alts icase : al (NStringSet alts icase).
+  Proof.
+    split; [|intros fwd s Es; discriminate Es]. intros [|f] fwd [q G] r Hx E; [discriminate|]. cbn [ir_results] in E. unfold strset_results in E.
+    revert r E. induction alts as [|a alts IHa]; intros r E; cbn [obindm] in E; [inversion E; constructor|].
+    destruct (if utf16 then None else lower_code_point_sequence a icase unicode) as [pieces|] eqn:Ep; [|discriminate].
+    match type of E with match ?x with _ => _ end = _ => destruct x as [ra|] eqn:Er; [|discriminate] end.
+    match type of E with match ?x with _ => _ end = _ => destruct x as [rb|] eqn:Eb; [|discriminate] end.
+    inversion E; subst. apply Forall_app. split; [|apply IHa; reflexivity].
+    destruct utf16; [discriminate|]. unfold lower_code_point_sequence in Ep.
+    pose proof (lower_go_ok icase a [] pieces (Forall_nil _) Ep) as Hok.
+    assert (Hl : Forall (fun n => piece_leaf n /\ al n) (map node_of_piece (if fwd then pieces else rev pieces))).
+    { rewrite Forall_forall. intros n Hn. apply in_map_iff in Hn as (p0 & <- & Hp0). rewrite Forall_forall in Hok. apply Hok.
+      destruct fwd; [exact Hp0|apply in_rev; exact Hp0]. }
+    unfold results_of in Er. cbn [fst snd] in Er.
+    destruct (pieces_run ix unicode h (negb fwd) (map node_of_piece (if fwd then pieces else rev pieces)) fwd q) as [[q'|]|] eqn:Epr;
+      inversion Er; subst; constructor; [|constructor].
+    apply (oks_move okp q G q' Hx). eapply pieces_run_clo; [exact Hl|exact (proj1 Hx)|exact Epr].
+  Qed.
 End Literal.
